@@ -1,5 +1,7 @@
 import GS.Model.Concurrent
 import GSProofs.C19
+import GSProofs.Lemmas.ConcurrentNonint
+import GSProofs.Lemmas.ConcurrentConfl
 /-!
 # C20 — Concurrent requests between two peers each retrieve completely
 
@@ -30,7 +32,17 @@ traversal has not reached it), the link is reported missing and its subtree skip
 * Requestor side: `step_frame` — a step of request `i` leaves every other request's executor, loader,
   in-flight messages and reports unchanged (the only coupling is the shared block store and the
   peer's link tracker).
-* `partial` — NOT proved; the statement is kept at the end of the file.
+* `partial_own_scope` / `partial_own_scope_result` — the COMPOSED statement (requestor executors +
+  reconciled loaders + responder traversals + the peer's link tracker + per-request FIFOs), for a
+  request that carries a dedup key nobody else carries and works over a block store of its own — i.e.
+  a request with a persistence option, which is how dedup keys come about in the code.  For EVERY
+  schedule the request goes through exactly the run it goes through when the other requests are
+  never issued (same reports in the same order, same store, same messages: non-interference,
+  `GSProofs/Lemmas/ConcurrentNonint.lean`), and every two complete schedules give it the same
+  result (responder steps and deliveries of one request commute: `GSProofs/Lemmas/ConcurrentConfl.lean`),
+  so its result is its solo result whatever the interleaving.
+* `partial` for requests with distinct keys over the SHARED default store — NOT proved; the precise
+  remaining statement is at the end of the file.
 -/
 namespace GS.C20
 open GS.Loader GS.Requestor GS.LinkTrack GS.Concurrent
@@ -181,14 +193,6 @@ theorem own_history (h : List LinkTrack.Op) (r : Req) (l : Link) (b : Bool) :
 
 /-! ## the requestor side: requests are coupled through the store and the tracker only -/
 
-theorem getElem?_set_ne {α : Type} (l : List α) (i j : Nat) (v : α) (h : j ≠ i) :
-    (l.set i v)[j]? = l[j]? := by
-  simp [Ne.symm h]
-
-/-- the action concerns request `i` -/
-def Act.idx : Act → Nat
-  | .start i | .resp i | .deliver i => i
-
 /-- **C20.step_frame.**  A step of request `i` does not touch the executor / loader state, the
     responder's traversal cursor, the in-flight messages or the reports of any other request `j`. -/
 theorem step_frame (s : Sys) (a : Act) (j : Nat) (hj : j ≠ Act.idx a) :
@@ -202,7 +206,7 @@ theorem step_frame (s : Sys) (a : Act) (j : Nat) (hj : j ≠ Act.idx a) :
     split
     · split
       · exact ⟨rfl, rfl, rfl, rfl, rfl, rfl⟩
-      · generalize Requestor.request _ _ _ = rq
+      · generalize reqStart _ _ _ = rq
         obtain ⟨r', ev⟩ := rq
         simp only
         split <;> simp [setAt, getElem?_set_ne _ _ _ _ hj]
@@ -213,40 +217,182 @@ theorem step_frame (s : Sys) (a : Act) (j : Nat) (hj : j ≠ Act.idx a) :
     split
     · split
       · exact ⟨rfl, rfl, rfl, rfl, rfl, rfl⟩
-      · split
-        · simp [setAt, getElem?_set_ne _ _ _ _ hj]
-        · split
-          · simp [setAt, getElem?_set_ne _ _ _ _ hj]
-          · simp [setAt, getElem?_set_ne _ _ _ _ hj]
+      · simp [setAt, getElem?_set_ne _ _ _ _ hj]
     · exact ⟨rfl, rfl, rfl, rfl, rfl, rfl⟩
   | deliver i =>
     simp only [Act.idx] at hj
     simp only [Concurrent.step]
     split
-    · generalize Requestor.message _ _ _ _ _ _ = rq
+    · generalize reqMsg _ _ _ = rq
       obtain ⟨r', ev⟩ := rq
       simp [setAt, getElem?_set_ne _ _ _ _ hj]
     · exact ⟨rfl, rfl, rfl, rfl, rfl, rfl⟩
 
-/-! ## full and partial statements (NOT proved)
+/-! ## a request in a scope of its own is not interfered with -/
+
+/-- the schedule with everything but request `i`'s actions deleted: the other requests are never issued -/
+def onlyOf (i : Nat) (sched : List Act) : List Act := sched.filter (fun a => Act.idx a == i)
+
+/-- **C20.partial_own_scope** (the composed statement, for a request that uses a persistence option).
+    Any number of requests `lts`, any local and remote stores, ANY schedule `sched` (any interleaving
+    of the requestor's executors, the responder's executors and message deliveries, complete or not).
+    Request `i` carries a dedup key `k` that no other request carries and works over a block store of
+    its own (`own[i] = some _`): both are what `UsePersistenceOption` gives a request.  Then request
+    `i` goes through exactly the run it goes through when the other requests are never issued
+    (`onlyOf i sched`: the same schedule with the other requests' actions deleted): the same reports
+    in the same order (blocks handed to the traversal, missing-block errors, nodes delivered —
+    `resultOf`), the same block store, the same termination state, the same messages in flight.
+    The requestor's executor and reconciled loader (`GS.Requestor`), the responder's traversal and
+    the peer's link tracker are the composed models, not abstractions of them. -/
+theorem partial_own_scope (st : List (Cid × Blk)) (rem : List Cid) (lts : List LT) (keys : List (Option Key))
+    (own : List (Option (List (Cid × Blk)))) (i : Nat) (k : Key) (sched : List Act)
+    (hk : keys.getD i none = some k) (hothers : ∀ j, j ≠ i → keys.getD j none ≠ some k)
+    (hown : (own.getD i none).isSome = true) :
+    resultOf (Concurrent.run (initSys st rem lts keys own) sched) i
+      = resultOf (Concurrent.run (initSys st rem lts keys own) (onlyOf i sched)) i ∧
+    storeOf (Concurrent.run (initSys st rem lts keys own) sched) i
+      = storeOf (Concurrent.run (initSys st rem lts keys own) (onlyOf i sched)) i ∧
+    finished (Concurrent.run (initSys st rem lts keys own) sched) i
+      = finished (Concurrent.run (initSys st rem lts keys own) (onlyOf i sched)) i ∧
+    (Concurrent.run (initSys st rem lts keys own) sched).chan[i]?
+      = (Concurrent.run (initSys st rem lts keys own) (onlyOf i sched)).chan[i]? ∧
+    (Concurrent.run (initSys st rem lts keys own) sched).resp[i]?
+      = (Concurrent.run (initSys st rem lts keys own) (onlyOf i sched)).resp[i]? := by
+  have hK : KInv (initSys st rem lts keys own) := by
+    intro e he
+    simp [initSys] at he
+  have hO : Own i k (initSys st rem lts keys own) := ⟨hk, hothers, hown⟩
+  have hA : ActV i k (initSys st rem lts keys own) := by
+    intro rr h1 h2
+    simp only [initSys, List.getElem?_map] at h1
+    cases hl : lts[i]? with
+    | none => rw [hl] at h1; cases h1
+    | some lt =>
+      rw [hl] at h1
+      simp only [Option.map_some, Option.some.injEq] at h1
+      subst h1
+      cases h2
+  have hv := view_run i k sched _ _ rfl hK hK hO hO hA
+  have hB := (Own_run i k _ (onlyOf i sched) hO).store
+  unfold onlyOf at hB ⊢
+  generalize Concurrent.run (initSys st rem lts keys own) sched = A at hv
+  generalize Concurrent.run (initSys st rem lts keys own) (sched.filter fun a => Act.idx a == i) = B at hv hB
+  simp only [view, View.mk.injEq] at hv
+  obtain ⟨h1, _, _, h4, h5, h6, h7, _, _⟩ := hv
+  refine ⟨?_, ?_, ?_, h6, h5⟩
+  · unfold resultOf
+    rw [List.getD_eq_getElem?_getD, List.getD_eq_getElem?_getD, h7]
+  · unfold storeOf
+    rw [h4]
+    -- both have a store of their own
+    cases ho : B.own.getD i none with
+    | none => rw [ho] at hB; cases hB
+    | some x => rfl
+  · unfold finished
+    rw [h1]
+
+/-- request `i` is issued once, before anything else happens to it -/
+def IssuedOnce (i : Nat) (sched : List Act) : Prop :=
+  ∃ σ, onlyOf i sched = .start i :: σ ∧ ∀ a ∈ σ, a ≠ .start i
+
+/-- **C20.partial_own_scope_result** (`partial` for requests with persistence options).  Two schedules
+    `sched`, `sched'` of the whole system — any interleavings with any other requests; `sched'` may
+    be a schedule of request `i` ALONE — in both of which request `i` is issued once and is complete
+    at the end (the responder has finished it and none of its messages is in flight).  If `i` carries
+    a dedup key nobody else carries and works over a store of its own, it delivers the same nodes,
+    reports the same missing blocks and ends with the same block store under both: its result is its
+    solo result, whatever the interleaving of traversals and messages. -/
+theorem partial_own_scope_result (st : List (Cid × Blk)) (rem : List Cid) (lts : List LT) (keys : List (Option Key))
+    (own : List (Option (List (Cid × Blk)))) (i : Nat) (k : Key) (sched sched' : List Act)
+    (hk : keys.getD i none = some k) (hothers : ∀ j, j ≠ i → keys.getD j none ≠ some k)
+    (hown : (own.getD i none).isSome = true)
+    (h1 : IssuedOnce i sched) (h2 : IssuedOnce i sched')
+    (c1 : Complete i (Concurrent.run (initSys st rem lts keys own) sched))
+    (c2 : Complete i (Concurrent.run (initSys st rem lts keys own) sched')) :
+    resultOf (Concurrent.run (initSys st rem lts keys own) sched) i
+      = resultOf (Concurrent.run (initSys st rem lts keys own) sched') i ∧
+    storeOf (Concurrent.run (initSys st rem lts keys own) sched) i
+      = storeOf (Concurrent.run (initSys st rem lts keys own) sched') i ∧
+    finished (Concurrent.run (initSys st rem lts keys own) sched) i
+      = finished (Concurrent.run (initSys st rem lts keys own) sched') i := by
+  obtain ⟨a1, a2, a3, a4, a5⟩ := partial_own_scope st rem lts keys own i k sched hk hothers hown
+  obtain ⟨b1, b2, b3, b4, b5⟩ := partial_own_scope st rem lts keys own i k sched' hk hothers hown
+  have d1 : Complete i (Concurrent.run (initSys st rem lts keys own) (onlyOf i sched)) := by
+    unfold Complete at c1 ⊢
+    rw [List.getD_eq_getElem?_getD] at c1 ⊢
+    rw [← a4, ← a5]; exact c1
+  have d2 : Complete i (Concurrent.run (initSys st rem lts keys own) (onlyOf i sched')) := by
+    unfold Complete at c2 ⊢
+    rw [List.getD_eq_getElem?_getD] at c2 ⊢
+    rw [← b4, ← b5]; exact c2
+  obtain ⟨σ, e1, n1⟩ := h1
+  obtain ⟨τ, e2, n2⟩ := h2
+  have mem : ∀ (sch : List Act) (ρ : List Act), onlyOf i sch = .start i :: ρ → (∀ a ∈ ρ, a ≠ .start i) →
+      ∀ a ∈ ρ, a = .resp i ∨ a = .deliver i := by
+    intro sch ρ e n a ha
+    have : a ∈ onlyOf i sch := by rw [e]; exact List.mem_cons_of_mem _ ha
+    unfold onlyOf at this
+    have hi : Act.idx a = i := by simpa using (List.mem_filter.mp this).2
+    have hn := n a ha
+    cases a with
+    | start j => simp only [Act.idx] at hi; subst hi; exact absurd rfl hn
+    | resp j => simp only [Act.idx] at hi; subst hi; exact Or.inl rfl
+    | deliver j => simp only [Act.idx] at hi; subst hi; exact Or.inr rfl
+  rw [e1] at d1 a1 a2 a3
+  rw [e2] at d2 b1 b2 b3
+  have hrun : ∀ ρ, Concurrent.run (initSys st rem lts keys own) (.start i :: ρ)
+      = Concurrent.run (Concurrent.step (initSys st rem lts keys own) (.start i)) ρ := fun _ => rfl
+  rw [hrun] at d1 d2 a1 a2 a3 b1 b2 b3
+  have heq := run_confluent i _ σ τ (mem sched σ e1 n1) (mem sched' τ e2 n2) d1 d2
+  rw [a1, a2, a3, b1, b2, b3, heq]
+  exact ⟨rfl, rfl, rfl⟩
+
+/-- non-vacuity of `partial_own_scope_result` (a test of concrete values): the two requests of the
+    counterexample, now with persistence options (keys 1 and 2, a store each), under the schedule of
+    the counterexample and under the solo schedule of request 1: issued once, complete, and request 1
+    delivers both blocks. -/
+example :
+    let init := initSys [] [7, 3] [exLT, exLT] [some 1, some 2] [some [], some []]
+    let solo1 : List Act := [.start 1, .resp 1, .resp 1, .resp 1, .deliver 1, .deliver 1, .deliver 1]
+    onlyOf 1 exSched = .start 1 :: [.resp 1, .deliver 1, .resp 1, .deliver 1, .resp 1, .deliver 1] ∧
+    ((Concurrent.run init exSched).resp[1]?.map (·.active) = some false ∧ (Concurrent.run init exSched).chan.getD 1 [] = []) ∧
+    ((Concurrent.run init solo1).resp[1]?.map (·.active) = some false ∧ (Concurrent.run init solo1).chan.getD 1 [] = []) ∧
+    resultOf (Concurrent.run init exSched) 1 = ([(7, []), (3, [0])], [], 2) ∧
+    resultOf (Concurrent.run init solo1) 1 = ([(7, []), (3, [0])], [], 2) := by
+  refine ⟨by decide, ⟨by decide, by decide⟩, ⟨by decide, by decide⟩, by decide, by decide⟩
+
+/-! ## full statement (false) and the remaining case (NOT proved)
 
   -- false: `counterexample`
-  theorem full : ∀ st rem lts keys sched i, Fair sched →          -- every request runs to its end
+  theorem full : ∀ st rem lts keys sched i, IssuedOnce i sched → Complete i (run (initSys st rem lts keys) sched) →
       resultOf (run (initSys st rem lts keys) sched) i = resultOf (solo st rem lts[i] keys[i]) 0
 
-  -- the composed statement the harness `concur` has not been able to refute (every generated failure
-  -- is in the class of the counterexample, and no case with distinct keys fails):
-  theorem partial : ∀ st rem lts keys sched i, Fair sched → (∀ c, st has c → rem has c) →
-      (keys pairwise distinct (all `some`)
-        ∨ every block shared between two requests is stored by the request it travelled with
-          before any other request's traversal reaches it) →
-      resultOf (run (initSys st rem lts keys) sched) i = resultOf (solo st rem lts[i] keys[i]) 0
+PROVED above (`partial_own_scope_result`): the statement for every request `i` with `keys[i] = some k`,
+`k` carried by no other request, and `own[i] = some _` (a store of its own); the other requests are
+arbitrary (any keys, shared or own stores).
 
-Proved parts: the responder decides for each request as if alone when the keys are distinct
-(`distinct_keys_decide_alone`, every interleaving), requests interact only through the store and the
-tracker (`step_frame`).  Missing: that the larger shared store never changes the outcome of a local
-lookup of a request (needs `st ⊆ rem` and C02's completeness argument, open), and the induction over
-schedules that puts the pieces together.
+REMAINING (not proved, not refuted: the harness `concur` has no failing case with distinct keys —
+corpus/C20/concur/distinct-keys.cases and every generated `keys=distinct` case):
+
+  theorem partial_shared_store : ∀ st rem lts keys sched sched' i k,
+      keys.getD i none = some k → (∀ j ≠ i, keys.getD j none ≠ some k) →
+      (∀ c, c ∈ st.map (·.1) → c ∈ rem) →                       -- the local store is a part of the remote one
+      IssuedOnce i sched → IssuedOnce i sched' → (∀ a ∈ sched', Act.idx a = i) →
+      Complete i (run (initSys st rem lts keys) sched) → Complete i (run (initSys st rem lts keys) sched') →
+      blocksOf / missingOf / deliveredOf of request i agree between the two runs
+
+i.e. the same request over the SHARED default store (`own[i] = none`).  The responder half is proved
+(`distinct_keys_decide_alone`: with distinct keys the responder decides for `i` as if alone, and
+`other_step`'s tracker part does not use the own store).  What is missing is the requestor half: the
+other requests add blocks to the store request `i` reads, at arbitrary moments.  A block that
+appears early turns a remote load of `i` into a local one: `i` goes online later, sends a larger
+do-not-send-first-blocks value, and the responder skips that many blocks — the MESSAGES of `i` differ
+from its solo run, only its reports may agree.  That the reports agree needs (a) every block in the
+store is the block the responder holds under that cid (`st ⊆ rem`, content addressing), and (b)
+`GS.C02.complete_remote_start` for a NON-ZERO number of locally traversed blocks together with store
+growth during the exchange — the loader agent has it for N = 0 and a fixed store
+(`GSProofs/C02.lean`), the N > 0 case is open there.  The schedule-independence half
+(`run_confluent`) carries over unchanged: it does not use the own store.
 -/
 
 end GS.C20
